@@ -195,7 +195,9 @@ class ScrapesIO(HasIOPreview, ABC):
         function if they are not already available.
         """
         if cls._output_labels is None:
-            cls._output_labels = cls._scrape_output_labels()
+            # Scraped labels are not stored on the class: a subclass with another
+            # function would inherit them instead of scraping its own
+            return cls._scrape_output_labels()
         return cls._output_labels
 
     @classmethod
